@@ -435,6 +435,33 @@ func c01Worker(c *core.Collector, x *Ctx) {
 		}
 		c.Count("long_run_encodes_on_one_header", int64(n))
 	}
+	// one JTMessage re-used for a sequence of different source frames, framed each time with ReplyID left at 0 ("same ID as the
+	// message"): the frame must carry the ID of the message decoded LAST
+	{
+		r := core.NewRand(c.Seed, "c01sticky", 0)
+		m := jt808.NewJTMessage()
+		n := c.N(4000, 40000)
+		for i := 0; i < n; i++ {
+			src, q := c01MakeSrc(r, r.Bool(), r.Chance(1, 4), i)
+			if m.Decode(src) != nil {
+				continue
+			}
+			body := c01Body(r, r.Intn(30), r.Intn(len(c01Classes)))
+			ps := uint16(i)
+			m.Header.PlatformSerialNumber = ps
+			cs := c01Case{Kind: "c01", Src: core.Hex(src), ReplyID: 0, PSerial: ps, Body: core.Hex(body), Class: "re-used message, ReplyID left at 0"}
+			var out []byte
+			if guard(c, func() any { return cs }, func() { out = m.Header.Encode(body) }) {
+				break
+			}
+			c.Eval()
+			if f, ok := ref.Validate(out); !ok || f.ID != q.ID || f.Serial != ps || !bytes.Equal(f.Body, body) || !bytes.Equal(f.BCD, q.BCD) {
+				c.Violate("roundtrip|re-used message framed with the ID of an earlier message (ReplyID left at 0)", fmt.Sprintf("step %d: source ID %04x", i, q.ID), cs)
+				break
+			}
+		}
+		c.Count("reused_message_reply_id_zero_steps", int64(n))
+	}
 	// exhaustive: all bodies of length <= 3 over the 5-symbol alphabet, each header variant
 	alpha := []byte{0x7e, 0x7d, 0x01, 0x02, 0x00}
 	var small [][]byte
